@@ -231,6 +231,57 @@ def eval_looped_row(ck, rule, f, r):
                   f'{sorted(ref.elements())}): some elements that were checked are now skipped', hirq.fn_loc(f))
 
 
+def _if_arms(n):
+    """arms of an if / else-if chain that ends in a plain else; None when some path falls through without an arm"""
+    arms = [n['a']]
+    b = n.get('b')
+    while b is not None:
+        pb = peel(b)
+        if pb.get('k') == 'if':
+            arms.append(pb['a'])
+            b = pb.get('b')
+        else:
+            arms.append(pb)
+            return arms
+    return None
+
+
+def sym_updates(f):
+    """{place: number of if/else sites inside a loop whose EVERY arm assigns the place} (plain `=` assignments)"""
+    from collections import Counter
+    from ..core import children, expr_str
+    res = Counter()
+
+    def assigned(block):
+        return {expr_str(x['lhs']) for x in walk(block, into_closures=False) if x.get('k') == 'assign'}
+
+    def rec(n, in_loop, else_if):
+        k = n.get('k')
+        if k == 'if' and in_loop and not else_if:
+            arms = _if_arms(n)
+            if arms and len(arms) >= 2:
+                for v in set.intersection(*[assigned(a) for a in arms]):
+                    res[v] += 1
+        for c in children(n):
+            il = False if k == 'closure' else (in_loop or k in ('for', 'loop'))
+            rec(c, il, k == 'if' and c is n.get('b') and peel(c).get('k') == 'if')
+    rec(f['body'], False, False)
+    return res
+
+
+def mine_symupdates(w):
+    rows = []
+    for f in w.all_fns(CRATES):
+        if '::tests::' in f['_nid'] or '/tests' in f['file']:
+            continue
+        prop = prop_of_file(f['file'])
+        if prop is None:
+            continue
+        for v, c in sorted(sym_updates(f).items()):
+            rows.append(dict(property=prop, fn=f['_xid'], place=v, sites=c))
+    return rows
+
+
 def load_rules(name):
     p = os.path.join(facts.VERIF, 'rules', name)
     with open(p) as fh:
@@ -425,3 +476,18 @@ def run_d(ck, w, prop, floors):
                       f'{fx}: input `{r["param"]}` reached {r["sites"]} call site(s) of {r["reaches"]} on the reference tree and reaches {have} now: a '
                       f'constraint that consumed this input was dropped or re-routed to another value', hirq.fn_loc(f))
     ck.count(f'{P}.D8 triples', len(rows8))
+    # ------------------------------------------------------------------ D9
+    ck.rule(f'{P}.D9', 'loop-carried state is refreshed on every branch: for each (function, place) of rules/symupdate.json — places that EVERY arm of an if/else '
+                       'inside a loop assigns on the reference tree — every arm still assigns it.  When one arm stops refreshing a loop-carried flag, the next '
+                       'iteration decides with the value left by an older element.')
+    rows9 = [r for r in load_rules('symupdate.json') if r['property'] == prop]
+    for r in rows9:
+        f = w.fn_x(r['fn'], required=False)
+        if f is None:
+            ck.bad(f'{P}.D9', f'{r["fn"]}:anchor', f'function {r["fn"]} of the symmetric-update table not found (needs triage)')
+            continue
+        have = sym_updates(f).get(r['place'], 0)
+        ck.record(f'{P}.D9', f'{r["fn"]}|{r["place"]}', have >= r['sites'], f'`{r["place"]}` assigned in every arm ({have} site(s))',
+                  f'{r["fn"]}: `{r["place"]}` was assigned in every arm of an if/else inside a loop ({r["sites"]} site(s)) and is now assigned in only some arms '
+                  f'({have} symmetric site(s)): on the other arm the next iteration sees a stale value', hirq.fn_loc(f))
+    ck.count(f'{P}.D9 places', len(rows9))
